@@ -7,7 +7,7 @@
 #
 # @author Davide Brunato <brunato@sissa.it>
 #
-from io import BufferedIOBase
+from io import BufferedIOBase, TextIOBase, UnsupportedOperation
 from threading import Lock
 from typing import Any, Optional, Union
 
@@ -153,3 +153,75 @@ class DefusableReader(BufferedIOBase):
 
     def read1(self, size: int = -1) -> bytes:
         return self.read(size)
+
+
+class DefusableTextReader(TextIOBase):
+    """
+    A class for wrapping a not seekable text IO stream in a partially seekable text
+    stream that can be defused. It works like DefusableReader, but on characters.
+    """
+    def __init__(self, fp: TextIOBase, initial_buffer_size: int = 64 * 1024):
+        if not isinstance(fp, TextIOBase):
+            raise TypeError(
+                f'"fp" argument must an instance of {TextIOBase} or a derived class'
+            )
+        if not fp.readable():
+            raise OSError('"fp" argument must be readable')
+        if fp.closed:
+            raise OSError('"fp" argument must be a not closed file descriptor')
+        if initial_buffer_size < DEFAULT_BUFFER_SIZE:
+            initial_buffer_size = DEFAULT_BUFFER_SIZE
+
+        self._buffer: str = fp.read(initial_buffer_size)
+        self._growing = True
+        self._fp = fp
+        self._pos = 0
+        self._fp_lock = Lock()
+
+    def readable(self) -> bool:
+        return self._fp.readable()
+
+    def seekable(self) -> bool:
+        self._checkClosed()  # type: ignore[attr-defined, unused-ignore]
+        return self._pos <= len(self._buffer)
+
+    def seek(self, pos: int, whence: int = 0) -> int:
+        if self.closed:
+            raise ValueError("seek on closed file")
+        if not isinstance(pos, int):
+            raise TypeError(f"{pos!r} is not an integer")
+        if whence != 0:
+            raise ValueError("unsupported whence value")
+        if pos < 0:
+            raise ValueError(f"negative seek position {pos!r}")
+
+        with self._fp_lock:
+            self._growing = False
+            if pos > len(self._buffer) or self._pos > len(self._buffer):
+                raise UnsupportedOperation("can't seek out of the buffered text")
+            self._pos = pos
+            return self._pos
+
+    def tell(self) -> int:
+        return self._pos
+
+    def close(self) -> None:
+        with self._fp_lock:
+            self._buffer = ''
+            self._fp.close()
+
+    def read(self, size: Optional[int] = -1) -> str:
+        self._checkClosed()  # type: ignore[attr-defined, unused-ignore]
+        with self._fp_lock:
+            buffer = self._buffer[self._pos:]
+            if size is None or size < 0:
+                data = buffer + self._fp.read()
+            elif size <= len(buffer):
+                data = buffer[:size]
+            else:
+                data = buffer + self._fp.read(size - len(buffer))
+
+            if self._growing and len(data) > len(buffer):
+                self._buffer += data[len(buffer):]
+            self._pos += len(data)
+            return data
